@@ -66,6 +66,9 @@ let () =
     (try
       toks := Array.of_list (List.filter (fun s -> s <> "") (split_line line));
       pos := 0;
+      (* LFOLD: the characters callback before the LF-hack fix (Model/XmlFrontLfOld.v) *)
+      let old_lf = (Array.length !toks > 0 && !toks.(0) = "LFOLD") in
+      if old_lf then ignore (next ());
       let input = next_hex () in
       let st = next_int () <> 0 in
       let version = next_n () in
@@ -92,7 +95,7 @@ let () =
         | Some a -> a
         | None -> missing := h :: !missing; Inr (n_of_int 996) in
       let o = { o_version = version; o_use_strtbl = use_strtbl; o_keep_ws = keep_ws; o_anonymous = anon } in
-      let r = xml2wbxml_events main_table main_btable sub events st o input in
+      let r = (if old_lf then xml2wbxml_events_old else xml2wbxml_events) main_table main_btable sub events st o input in
       (match !missing with
        | _ :: _ -> Printf.printf "NEED %s\n" (List.hd (List.rev !missing))
        | [] ->
